@@ -49,13 +49,16 @@ func (in *Interp) callValue(fv Val, args []Val, rt types.Type, st *State, f *fra
 	return in.opaqueCall("dynamic", nil, args, rt, st)
 }
 
+// onStack: fn already has two activations (one level of self-recursion is
+// interpreted; WritePacket restarts itself once after resetting its state).
 func (in *Interp) onStack(fn *ssa.Function) bool {
+	n := 0
 	for _, g := range in.stack {
 		if g == fn {
-			return true
+			n++
 		}
 	}
-	return false
+	return n >= 2
 }
 
 func (in *Interp) callStatic(fn *ssa.Function, args []Val, bindings []Val, rt types.Type, st *State, f *frame) Val {
@@ -127,7 +130,14 @@ func (in *Interp) opaqueCall(name string, fn *ssa.Function, args []Val, rt types
 	in.event(Event{Kind: "call", Note: name, Args: snap})
 	pure := fn != nil && in.PureFn != nil && in.PureFn(fn)
 	if !pure {
-		for _, a := range args {
+		eff := stdEffects[name]
+		for i, a := range args {
+			switch {
+			case eff == effNone:
+				continue
+			case eff == effRecvOnly && i > 0:
+				continue
+			}
 			in.havocReach(st, a)
 		}
 	}
@@ -365,6 +375,18 @@ func (in *Interp) appendBuiltin(a, b Val, rt types.Type, st *State) Val {
 // snapshot replaces a short constant-length slice argument by its element
 // values at the time of the call (the callee may be opaque and havoc it).
 func (in *Interp) snapshot(st *State, v Val) Val {
+	if p, ok := v.(*Ptr); ok && p.Dyn == nil {
+		if at, ok := p.T.Underlying().(*types.Array); ok && at.Len() <= 188 {
+			if _, _, isInt := intWidth(at.Elem()); isInt {
+				sv := &StructV{T: p.T}
+				for i := 0; i < int(at.Len()); i++ {
+					sv.Fields = append(sv.Fields, in.loadPath(st, p.Obj, joinPath(p.Path, p.Base+i), at.Elem()))
+				}
+				return &SnapV{Ptr: p, Elems: sv}
+			}
+		}
+		return v
+	}
 	s, ok := v.(*SliceV)
 	if !ok {
 		return v
@@ -379,4 +401,51 @@ func (in *Interp) snapshot(st *State, v Val) Val {
 		sv.Fields = append(sv.Fields, in.loadPath(st, s.Obj, joinPath(s.Prefix, int(lo+i)), s.Elem))
 	}
 	return sv
+}
+
+// stdEffects is the intrinsic effect table for standard-library callees that
+// stay opaque: which of their pointer/slice arguments they may write through.
+// Anything not listed may write through every argument.
+type effect int
+
+const (
+	effAll      effect = iota // default: may write through any argument
+	effRecvOnly               // writes at most through the receiver (argument 0)
+	effNone                   // writes through no argument
+)
+
+var stdEffects = map[string]effect{
+	"(*bytes.Buffer).Write":       effRecvOnly,
+	"(*bytes.Buffer).WriteString": effRecvOnly,
+	"(*bytes.Buffer).WriteByte":   effRecvOnly,
+	"(*bytes.Buffer).Reset":       effRecvOnly,
+	"(*bytes.Buffer).Next":        effRecvOnly,
+	"(*bytes.Buffer).ReadByte":    effRecvOnly,
+	"(*bytes.Buffer).UnreadByte":  effRecvOnly,
+	"(*bytes.Buffer).Read":        effAll,
+	"(*bytes.Buffer).Bytes":       effNone,
+	"(*bytes.Buffer).Len":         effNone,
+	"(*bytes.Buffer).String":      effNone,
+	"bytes.NewBuffer":             effNone,
+	"bytes.NewReader":             effNone,
+	"bytes.Equal":                 effNone,
+	"fmt.Sprintf":                 effNone,
+	"fmt.Sprint":                  effNone,
+	"fmt.Errorf":                  effNone,
+	"fmt.Printf":                  effNone,
+	"fmt.Println":                 effNone,
+	"errors.New":                  effNone,
+	"encoding/hex.EncodeToString": effNone,
+	"strconv.Itoa":                effNone,
+	"encoding/binary.Write":       effRecvOnly, // writes to the io.Writer (argument 0), reads data
+	"strings.Join":                effNone,
+	"(*strings.Builder).WriteString": effRecvOnly,
+	"time.Unix":                   effNone,
+	"(time.Time).Unix":            effNone,
+	"(time.Time).UnixNano":        effNone,
+	"(time.Time).Nanosecond":      effNone,
+	"(time.Time).Before":          effNone,
+	"(time.Time).After":           effNone,
+	"(time.Time).Sub":             effNone,
+	"(time.Time).Add":             effNone,
 }
